@@ -50,7 +50,7 @@ def c09_case(draw):
             "rw": {"seed": draw(st.integers(0, 2 ** 31)), "kinds": draw(st.sampled_from(
                 [["permute_keys"], ["flow"], ["permute_keys", "comments"], ["float_spelling"], ["quote_strings"], ["block", "indent"], ["anchors"]]))},
             "mut": draw(st.sampled_from(["value", "mode", "max_runs", "combine", "add_key", "drop_value"])),
-            "value_src": draw(st.sampled_from(["config", "context"]))}
+            "value_src": draw(st.sampled_from(["config", "context"])), "unicode": draw(st.integers(0, 3)) == 0}
 
 
 def materialise(case: Dict[str, Any]) -> Dict[str, Any]:
@@ -89,6 +89,9 @@ def materialise(case: Dict[str, Any]) -> Dict[str, Any]:
     vals = {"idx": list(range(n)), "value": [float(3 + i) for i in range(n)], "factor": [2.0 + i for i in range(n)],
             "addend": [0.5 + i for i in range(n)], "divisor": [(0.0 if fail_at == i else 2.0 + i) for i in range(n)]}
     blocks: List[Dict[str, Any]] = [{"mode": "by_position", "context": {k: vals[k] for k in first_keys}}]
+    if case.get("unicode"):
+        # an extra (unused) context key with non-ASCII text: the spec ID must still agree between inspect and the trace
+        blocks[0]["context"]["label"] = ["é%d-日本-ß" % i for i in range(n)]
     files: List[Dict[str, Any]] = []
     combine = "combinatorial"
     if second_keys:
@@ -189,6 +192,8 @@ def check_case(case: Dict[str, Any], col: Collector, workroot: str = ".") -> Non
             labs.append("source_file")
         if any(m == "sweep" for m in case["mids"]):
             labs.append("sweep")
+        if case.get("unicode"):
+            labs.append("non_ascii_values")
         feats0 = {"out": case["out"]}
 
         def bad(check, feats=None, observed=None, expected=None):
@@ -400,4 +405,4 @@ def shrink_candidates(case):
 
 def label_requirements(tier: str) -> Dict[str, Any]:
     return {"failing_run": 0.1, "source_file": 0.05, "out:file": 0.3, "out:dir": 0.3, "launch:explicit": 0.2, "launch:idem": 0.2,
-            "launch:generated": 0.2, "sweep": 0.1}
+            "launch:generated": 0.2, "sweep": 0.1, "non_ascii_values": 0.1}
